@@ -13,6 +13,8 @@ MANIFEST_ENTRY = {
     "note": "Header-list shapes bounded (<= 2 values), hence level 'other'. base64 decoding is an uninterpreted function that may return any bytes (including empty) or fail; timing_safe_compare <=> equality; the Klein/werkzeug routing layer and TLS are not under contract. The route table in the contract is the documented GBS API.",
     "technique": "contract-based deductive verification (pyvc VCs + z3) + syntactic route-table scan",
 }
+MANIFEST_ENTRY["text"] += ' Bounded end-to-end stand-in (run-time contract, never counted as proved): contracts/grid_http.py replays seeded operation histories on twin real StorageServers, one called directly and one through the real HTTP client and HTTPServer resource in memory, comparing every result and the logical server state, interleaved with requests that must be refused (wrong swissnum, wrong or missing secrets) and must change nothing.'
+MANIFEST_ENTRY["technique"] += "; plus bounded end-to-end run-time scenario contracts on an in-process grid of the real components (stand-in, labelled bounded)"
 EXPLANATION = "Dominance of every handler by the swissnum and secret checks; exact secret sets."
 TRUSTED = ["timing_safe_compare(a,b) <=> a == b", "base64.b64decode as an uninterpreted partial function", "klein routing dispatches only registered routes"]
 ASSUMPTIONS = []
